@@ -266,11 +266,22 @@ func buildVC(w *World, c *Contract) (vc *FuncVC) {
 
 func (e *Engine) frameObligations(c *Contract, res execResult, h0 Heap) {
 	var pats []string
+	desig := map[string][]string{} // pattern -> entry references of the designated parameters
 	for _, cl := range c.byKind("assigns") {
 		for _, item := range splitTop(cl.Expr, ',') {
 			item = strings.TrimSpace(item)
-			if item != "" && item != "nothing" {
-				pats = append(pats, item)
+			if item == "" || item == "nothing" {
+				continue
+			}
+			pname, pat := assignsItem(item)
+			if pname == "" {
+				pats = append(pats, pat)
+				continue
+			}
+			if ref, ok := e.paramRef(e.root, e.rootArgs, pname); ok {
+				desig[pat] = append(desig[pat], ref)
+			} else {
+				pats = append(pats, pat) // not an object parameter: treat as type-level
 			}
 		}
 	}
@@ -293,7 +304,16 @@ func (e *Engine) frameObligations(c *Contract, res execResult, h0 Heap) {
 			continue
 		}
 		r := e.sc.declare("frame_r", SRef)
-		goal := implies(and(res.reach, app("bvult", r, bvLit(0x80000000, 32))), eq(sel(final, r), sel(cp.init, r)))
+		others := "true"
+		for pat, refs := range desig {
+			if componentMatches(k, pat) {
+				// only the designated objects may differ
+				for _, ref := range refs {
+					others = and(others, not(eq(r, ref)))
+				}
+			}
+		}
+		goal := implies(and(res.reach, app("bvult", r, bvLit(0x80000000, 32)), others), eq(sel(final, r), sel(cp.init, r)))
 		e.oblige(&Obligation{
 			Name:   c.Func + ".frame." + shortKey(k),
 			Kind:   "frame",
